@@ -272,8 +272,13 @@ def main():
             dict(base, MaxObjs=2, KindSet={'config', 'partial', 'list', 'dict', 'tuple'},
                  TagChoices={0, 5}, UnsetTagged=True)]
   else:
-    runs = [dict(base, MaxObjs=3, KindSet={'config', 'partial', 'list', 'dict', 'tuple'},
-                 TagChoices={0, 5}, UnsetTagged=True)]
+    # (sized with TLC alone: the quick configurations plus 0.43 M states; five kinds with tags over three
+    # objects are 1.9 M states and more)
+    runs = [dict(base, MaxObjs=3, KindSet={'config', 'list', 'dict'}, TagChoices={0}, UnsetTagged=False),
+            dict(base, MaxObjs=2, KindSet={'config', 'partial', 'list', 'dict', 'tuple'},
+                 TagChoices={0, 5}, UnsetTagged=True),
+            dict(base, MaxObjs=3, KindSet={'config', 'partial', 'list', 'dict', 'tuple'},
+                 TagChoices={0}, UnsetTagged=False)]
   consts = runs[0]
   invs = ['DeepFaithful', 'DeepDisjoint', 'ShallowFresh', 'ShallowValuesShared',
           'OriginalIsSnapshot', 'Emit']
